@@ -61,6 +61,7 @@ class TranslatorBase(object):
         self.notes = []
         self.dead = False
         self.top_locals = {}
+        self.recips = {}
 
     # ------------------------------------------------------------------------------------------- infrastructure
     def fresh(self, base):
@@ -286,6 +287,7 @@ class TranslatorBase(object):
             return E.const(1 / Fraction(b.cval()))
         self.obligation(b.ne(0), 'division by zero: %s' % (where(node) if node else ''), 'div')
         r = self.new_scalar('recip', REAL)
+        self.recips[r.name] = b
         self.emit(Havoc(scalars=[(r.name, REAL)]))
         self.emit(Assume(implies(b.ne(0), (b * r.rd()).eq(1)), 'reciprocal'))
         return r.rd()
